@@ -135,4 +135,386 @@ theorem allStrOrNullVals_sprint : ∀ kvs : List (String × Val), allStrOrNullVa
     obtain ⟨k, v⟩ := p
     cases v <;> simp_all [allStrOrNullVals, sprint, Val.fmtV, entryPtr]
 
+/-! ### signed decimal text -/
+
+theorem natDigits_head (n : Nat) : ∃ c cs, natDigits n = c :: cs ∧ isDigit c = true := by
+  have h1 : (natDigits n).all isDigit = true := natDigitsAux_all _ _ _ (by rfl)
+  have h2 : natDigits n ≠ [] := natDigitsAux_ne_nil _ _ _ (Or.inr (by omega))
+  cases h : natDigits n with
+  | nil => exact absurd h h2
+  | cons c cs =>
+    rw [h] at h1
+    simp only [List.all_cons, Bool.and_eq_true] at h1
+    exact ⟨c, cs, rfl, h1.1⟩
+
+theorem parseInt_natDigits (n : Nat) : parseInt? (natDigits n) = some (n : Int) := by
+  obtain ⟨c, cs, hc, hd⟩ := natDigits_head n
+  have hm : c ≠ '-' := by intro e; subst e; revert hd; decide
+  have hp : c ≠ '+' := by intro e; subst e; revert hd; decide
+  have := parseNat_natDigits n
+  rw [hc] at this ⊢
+  unfold parseInt?
+  split
+  · next r heq => injection heq with h1 _; exact absurd h1 hm
+  · next r heq => injection heq with h1 _; exact absurd h1 hp
+  · simp [this]
+
+theorem parseInt_fmtInt (i : Int) : parseInt? (fmtInt i).toList = some i := by
+  cases i with
+  | ofNat n => simp [fmtInt, parseInt_natDigits]
+  | negSucc n =>
+    simp only [fmtInt, String.toList_ofList, parseInt?, parseNat_natDigits]
+    congr 1
+
+/-! ### assignment of distinct keys -/
+
+theorem insert_fresh (k : String) (v : Val) : ∀ acc : List (String × Val), k ∉ acc.map Prod.fst →
+    Val.insert k v acc = acc ++ [(k, v)] := by
+  intro acc
+  induction acc with
+  | nil => intro _; rfl
+  | cons p r ih =>
+    intro h
+    obtain ⟨k', v'⟩ := p
+    simp only [List.map_cons, List.mem_cons, not_or] at h
+    simp only [Val.insert, h.1, if_false, List.cons_append, ih h.2]
+
+theorem foldl_insert_nodup : ∀ (kvs acc : List (String × Val)),
+    (acc.map Prod.fst ++ kvs.map Prod.fst).Nodup →
+    kvs.foldl (fun acc (kv : String × Val) => Val.insert kv.1 kv.2 acc) acc = acc ++ kvs := by
+  intro kvs
+  induction kvs with
+  | nil => intro acc _; simp
+  | cons p r ih =>
+    intro acc h
+    obtain ⟨k, v⟩ := p
+    have hk : k ∉ acc.map Prod.fst := by
+      intro hm
+      have := List.nodup_append.mp h
+      exact this.2.2 k hm k (by simp) rfl
+    simp only [List.foldl_cons, insert_fresh k v acc hk]
+    rw [ih]
+    · simp
+    · simpa [List.map_append, List.append_assoc] using h
+
+/-- assigning distinct keys one after the other just lists them -/
+theorem assignAll_nodup (kvs : List (String × Val)) (h : (kvs.map Prod.fst).Nodup) : assignAll kvs = kvs := by
+  unfold assignAll
+  rw [foldl_insert_nodup kvs [] (by simpa using h)]
+  simp
+
+
+/-! ### cutting at a separator -/
+
+theorem indexOfGo_sep (c : Char) (b : List Char) : ∀ (a : List Char) (i : Nat), c ∉ a →
+    CV.indexOfGo [c] (a ++ c :: b) i = some (i + a.length) := by
+  intro a
+  induction a with
+  | nil => intro i _; simp [CV.indexOfGo, List.isPrefixOf]
+  | cons x r ih =>
+    intro i h
+    have hx : x ≠ c := fun e => h (by simp [e])
+    have hr : c ∉ r := fun m => h (List.mem_cons_of_mem _ m)
+    simp only [List.cons_append, CV.indexOfGo, List.isPrefixOf]
+    have : (c == x) = false := by simpa using fun e => hx e.symm
+    simp only [this, Bool.false_and, Bool.false_eq_true, if_false]
+    rw [ih (i + 1) hr]
+    simp only [List.length_cons]
+    congr 1
+    omega
+
+theorem indexOf_sep (c : Char) (a b : List Char) (h : c ∉ a) : CV.indexOf [c] (a ++ c :: b) = some a.length := by
+  unfold CV.indexOf
+  rw [indexOfGo_sep c b a 0 h]
+  simp
+
+theorem indexOfGo_none (c : Char) : ∀ (a : List Char) (i : Nat), c ∉ a → CV.indexOfGo [c] a i = none := by
+  intro a
+  induction a with
+  | nil => intro i _; simp [CV.indexOfGo]
+  | cons x r ih =>
+    intro i h
+    have hx : x ≠ c := fun e => h (by simp [e])
+    have hr : c ∉ r := fun m => h (List.mem_cons_of_mem _ m)
+    simp only [CV.indexOfGo, List.isPrefixOf]
+    have : (c == x) = false := by simpa using fun e => hx e.symm
+    simp only [this, Bool.false_and, Bool.false_eq_true, if_false]
+    exact ih (i + 1) hr
+
+/-- cutting `id=rest` at the first `=` when the id has none -/
+theorem cutEq_join (a b : String) (h : '=' ∉ a.toList) : cutEq (a ++ "=" ++ b) = (a, b, true) := by
+  unfold cutEq
+  have h1 : (a ++ "=" ++ b).toList = a.toList ++ '=' :: b.toList := by
+    simp [String.toList_append]
+  simp only [h1, indexOf_sep '=' a.toList b.toList h]
+  simp
+
+/-! ### ssh keys -/
+
+theorem mapOut_map {α : Type} (f : Val → Out) (g : α → Val) (h : α → Val) (hf : ∀ x, f (g x) = .ok (h x)) :
+    ∀ xs : List α, mapOut f (xs.map g) = .ok (xs.map h) := by
+  intro xs
+  induction xs with
+  | nil => rfl
+  | cons x r ih => simp [mapOut, hf, ih]
+
+def sshVal (k : String × String) : Val := mkSSHKey k.1 k.2
+def sshLine (k : String × String) : Val := .str (sshShort k.1 k.2)
+def sshEnt (k : String × String) : String × Val := (k.1, if k.2 = "" ∧ k.1 = "default" then .null else .str k.2)
+
+theorem marshalY_SSHKey_val (k : String × String) : marshalY_SSHKey (sshVal k) = .ok (sshLine k) := by
+  simp [marshalY_SSHKey, sshVal, sshLine, mkSSHKey, getStr, Val.lookup]
+
+theorem cutEq_default : cutEq "default" = ("default", "", false) := by decide
+
+theorem sshEntry_line (k : String × String) (h : '=' ∉ k.1.toList) : sshEntry (sshLine k) = .ok (sshEnt k) := by
+  obtain ⟨i, p⟩ := k
+  simp only [sshLine, sshShort, sshEnt]
+  by_cases hd : p = "" ∧ i = "default"
+  · obtain ⟨hp, hi⟩ := hd
+    subst hp hi
+    simp [sshEntry, cutEq_default]
+  · simp only [hd, if_false, sshEntry, cutEq_join i p h]
+    simp
+
+theorem sshEntries_lines : ∀ ks : List (String × String), (∀ k ∈ ks, '=' ∉ k.1.toList) →
+    sshEntries (ks.map sshLine) = .ok (ks.map sshEnt) := by
+  intro ks
+  induction ks with
+  | nil => intro _; rfl
+  | cons k r ih =>
+    intro h
+    have h1 := sshEntry_line k (h k (List.mem_cons_self ..))
+    have h2 := ih (fun k' hm => h k' (List.mem_cons_of_mem _ hm))
+    simp [sshEntries, h1, h2, bind, Except.bind, pure, Except.pure]
+
+theorem sshEnt_back (k : String × String) :
+    (fun (x : String × Val) => mkSSHKey x.1 (match x.2 with | .null => "" | p => sprint p)) (sshEnt k) = sshVal k := by
+  obtain ⟨i, p⟩ := k
+  simp only [sshEnt, sshVal]
+  by_cases hd : p = "" ∧ i = "default"
+  · simp [hd]
+  · simp [hd, sprint, Val.fmtV]
+
+/-- ssh keys: every list of keys with distinct ids free of `=` survives both renderings -/
+theorem roundtrip_SSHConfig (ks : List (String × String)) (hnd : (ks.map Prod.fst).Nodup)
+    (heq : ∀ k ∈ ks, '=' ∉ k.1.toList) :
+    (marshalY_SSHConfig (.seq (ks.map sshVal))).bind decode_SSHConfig = .ok (.seq (ks.map sshVal)) := by
+  have hm := mapOut_map marshalY_SSHKey sshVal sshLine marshalY_SSHKey_val ks
+  simp only [marshalY_SSHConfig, hm, Out.bind, decode_SSHConfig, sshEntries_lines ks heq]
+  have hk : ((ks.map sshEnt).map Prod.fst).Nodup := by
+    have : (ks.map sshEnt).map Prod.fst = ks.map Prod.fst := by
+      simp [List.map_map, sshEnt, Function.comp_def]
+    rw [this]; exact hnd
+  rw [assignAll_nodup _ hk]
+  congr 2
+  rw [List.map_map]
+  apply List.map_congr_left
+  intro k _
+  exact sshEnt_back k
+
+/-! ### extra_hosts -/
+
+abbrev HEnt := String × List String
+
+def entVal (e : HEnt) : String × Val := (e.1, .seq (e.2.map Val.str))
+def entLines (e : HEnt) : List String := e.2.map (joinHost e.1)
+
+/-- a well-formed address: no comma (it would be split) and no enclosing brackets (they would be stripped) -/
+def ipOK (ip : String) : Prop := ',' ∉ ip.toList ∧ stripBrackets ip = ip
+
+/-- a well-formed entry: a non-empty host name without `:` or `=`, at least one address, every address well-formed -/
+def entOK (e : HEnt) : Prop :=
+  e.1 ≠ "" ∧ ':' ∉ e.1.toList ∧ '=' ∉ e.1.toList ∧ e.2 ≠ [] ∧ ∀ ip ∈ e.2, ipOK ip
+
+theorem strsOf_strs : ∀ l : List String, strsOf (l.map Val.str) = l := by
+  intro l; induction l with
+  | nil => rfl
+  | cons x r ih => simp [strsOf, ih]
+
+theorem hostLines_ents : ∀ es : List HEnt, hostLines (es.map entVal) = es.flatMap entLines := by
+  intro es; induction es with
+  | nil => rfl
+  | cons e r ih =>
+    obtain ⟨h, ips⟩ := e
+    simp [hostLines, entVal, entLines, strsOf_strs, ih]
+
+theorem splitOnChar_none (c : Char) : ∀ cs : List Char, c ∉ cs → splitOnChar c cs = [cs] := by
+  intro cs; induction cs with
+  | nil => intro _; rfl
+  | cons x r ih =>
+    intro h
+    have hx : x ≠ c := fun e => h (by simp [e])
+    have hr : c ∉ r := fun m => h (List.mem_cons_of_mem _ m)
+    have := ih hr
+    unfold splitOnChar at this ⊢
+    simp only [List.foldr_cons, this, hx, if_false]
+
+theorem splitComma_none (ip : String) (h : ',' ∉ ip.toList) : splitComma ip = [ip] := by
+  simp [splitComma, splitOnChar_none ',' ip.toList h]
+
+theorem cutHost_join (h ip : String) (hh : '=' ∉ h.toList) : cutHost (joinHost h ip) = some (h, ip) := by
+  unfold cutHost joinHost
+  have h1 : (h ++ "=" ++ ip).toList = h.toList ++ '=' :: ip.toList := by simp [String.toList_append]
+  simp only [h1, indexOf_sep '=' h.toList ip.toList hh]
+  simp
+
+theorem addHost_fresh (h : String) (l : List String) : ∀ acc : List HEnt, h ∉ acc.map Prod.fst →
+    addHost h l acc = acc ++ [(h, l)] := by
+  intro acc; induction acc with
+  | nil => intro _; rfl
+  | cons p r ih =>
+    intro hm
+    obtain ⟨h', l'⟩ := p
+    simp only [List.map_cons, List.mem_cons, not_or] at hm
+    simp only [addHost, hm.1, if_false, List.cons_append, ih hm.2]
+
+theorem addHost_last (h : String) (l0 l : List String) : ∀ acc : List HEnt, h ∉ acc.map Prod.fst →
+    addHost h l (acc ++ [(h, l0)]) = acc ++ [(h, l0 ++ l)] := by
+  intro acc; induction acc with
+  | nil => intro _; simp [addHost]
+  | cons p r ih =>
+    intro hm
+    obtain ⟨h', l'⟩ := p
+    simp only [List.map_cons, List.mem_cons, not_or] at hm
+    simp only [List.cons_append, addHost, hm.1, if_false, ih hm.2]
+
+/-- reading the remaining lines of one host appends its addresses to the entry already opened at the end -/
+theorem hostsFromLines_more (h : String) (hh : '=' ∉ h.toList) (rest : List String) :
+    ∀ (ips l0 : List String) (acc : List HEnt), h ∉ acc.map Prod.fst → (∀ ip ∈ ips, ipOK ip) →
+      hostsFromLines (ips.map (joinHost h) ++ rest) (acc ++ [(h, l0)]) = hostsFromLines rest (acc ++ [(h, l0 ++ ips)]) := by
+  intro ips; induction ips with
+  | nil => intro l0 acc _ _; simp
+  | cons ip r ih =>
+    intro l0 acc hm hok
+    have hip := hok ip (List.mem_cons_self ..)
+    simp only [List.map_cons, List.cons_append, hostsFromLines, cutHost_join h ip hh, splitComma_none ip hip.1,
+      addHost_last h l0 [ip] acc hm]
+    rw [ih (l0 ++ [ip]) acc hm (fun ip' hm' => hok ip' (List.mem_cons_of_mem _ hm'))]
+    simp
+
+/-- reading all the lines of one well-formed host adds exactly its entry -/
+theorem hostsFromLines_ent (e : HEnt) (he : entOK e) (rest : List String) (acc : List HEnt) (hm : e.1 ∉ acc.map Prod.fst) :
+    hostsFromLines (entLines e ++ rest) acc = hostsFromLines rest (acc ++ [e]) := by
+  obtain ⟨h, ips⟩ := e
+  obtain ⟨_, _, heq, hne, hok⟩ := he
+  cases ips with
+  | nil => exact absurd rfl hne
+  | cons ip r =>
+    have hip := hok ip (List.mem_cons_self ..)
+    simp only [entLines, List.map_cons, List.cons_append, hostsFromLines, cutHost_join h ip heq, splitComma_none ip hip.1,
+      addHost_fresh h [ip] acc hm]
+    have := hostsFromLines_more h heq rest r [ip] acc hm (fun ip' hm' => hok ip' (List.mem_cons_of_mem _ hm'))
+    simpa using this
+
+theorem hostsFromLines_ents : ∀ (es acc : List HEnt), (∀ e ∈ es, entOK e) →
+    (acc.map Prod.fst ++ es.map Prod.fst).Nodup →
+    hostsFromLines (es.flatMap entLines) acc = .ok (acc ++ es) := by
+  intro es; induction es with
+  | nil => intro acc _ _; simp [hostsFromLines]
+  | cons e r ih =>
+    intro acc hok hnd
+    have hm : e.1 ∉ acc.map Prod.fst := by
+      intro hmem
+      have := List.nodup_append.mp hnd
+      exact this.2.2 e.1 hmem e.1 (by simp) rfl
+    simp only [List.flatMap_cons]
+    rw [hostsFromLines_ent e (hok e (List.mem_cons_self ..)) _ acc hm]
+    rw [ih (acc ++ [e]) (fun e' hm' => hok e' (List.mem_cons_of_mem _ hm'))]
+    · simp
+    · simpa [List.map_append, List.append_assoc] using hnd
+
+theorem badHost_ok (e : HEnt) (he : entOK e) : badHost e.1 = false := by
+  obtain ⟨h1, h2, h3, _, _⟩ := he
+  simp only [badHost, Bool.or_eq_false_iff, beq_eq_false_iff_ne, ne_eq, List.any_eq_false]
+  refine ⟨h1, ?_⟩
+  intro c hc
+  simp only [Bool.or_eq_true, beq_iff_eq, not_or]
+  exact ⟨fun e => h2 (e ▸ hc), fun e => h3 (e ▸ hc)⟩
+
+theorem cleanupHosts_ok (es : List HEnt) (hok : ∀ e ∈ es, entOK e) : cleanupHosts es = .ok (.map (es.map entVal)) := by
+  have hb : es.any (fun p => badHost p.1) = false := by
+    simp only [List.any_eq_false]
+    intro e he
+    simp [badHost_ok e (hok e he)]
+  simp only [cleanupHosts, hb, Bool.false_eq_true, if_false]
+  congr 2
+  apply List.map_congr_left
+  intro e he
+  obtain ⟨h, ips⟩ := e
+  simp only [entVal]
+  congr 2
+  apply List.map_congr_left
+  intro ip hip
+  have := (hok (h, ips) he).2.2.2.2 ip hip
+  simp [this.2]
+
+theorem strs_scalar : ∀ l : List String, (l.map Val.str).all isScalar = true := by
+  intro l; induction l with
+  | nil => rfl
+  | cons x r ih => simp [isScalar, ih]
+
+theorem sprint_strs : ∀ l : List String, (l.map Val.str).map sprint = l := by
+  intro l; induction l with
+  | nil => rfl
+  | cons x r ih => simpa [sprint, Val.fmtV] using ih
+
+/-- reading back the lines of any list of well-formed entries with distinct hosts gives that list -/
+theorem decode_hostLines (es : List HEnt) (hok : ∀ e ∈ es, entOK e) (hnd : (es.map Prod.fst).Nodup) :
+    decode_HostsList (.seq ((hostLines (es.map entVal)).map Val.str)) = .ok (.map (es.map entVal)) := by
+  simp only [decode_HostsList, strs_scalar, Bool.not_true, Bool.false_eq_true, if_false, sprint_strs, hostLines_ents]
+  rw [hostsFromLines_ents es [] hok (by simpa using hnd)]
+  simp [cleanupHosts_ok es hok]
+
+/-- the marshaller's ordering of the entries, on typed entries -/
+def insertH (e : HEnt) : List HEnt → List HEnt
+  | [] => [e]
+  | x :: r => if e.1 ++ "=" ≤ x.1 ++ "=" then e :: x :: r else x :: insertH e r
+
+def sortH (l : List HEnt) : List HEnt := l.foldr insertH []
+
+theorem insertEntry_map (e : HEnt) : ∀ l : List HEnt, insertEntry (entVal e) (l.map entVal) = (insertH e l).map entVal := by
+  intro l; induction l with
+  | nil => rfl
+  | cons x r ih =>
+    simp only [List.map_cons, insertEntry, insertH]
+    by_cases h : e.1 ++ "=" ≤ x.1 ++ "="
+    · have h' : (entVal e).1 ++ "=" ≤ (entVal x).1 ++ "=" := h
+      simp [h, h']
+    · have h' : ¬ ((entVal e).1 ++ "=" ≤ (entVal x).1 ++ "=") := h
+      simp [h, h', ih]
+
+theorem sortEntries_map : ∀ l : List HEnt, sortEntries (l.map entVal) = (sortH l).map entVal := by
+  intro l; induction l with
+  | nil => rfl
+  | cons x r ih =>
+    simp only [List.map_cons, sortEntries, sortH, List.foldr_cons] at ih ⊢
+    rw [ih, insertEntry_map]
+
+theorem insertH_perm (e : HEnt) : ∀ l : List HEnt, (insertH e l).Perm (e :: l) := by
+  intro l; induction l with
+  | nil => exact List.Perm.refl _
+  | cons x r ih =>
+    simp only [insertH]
+    split
+    · exact List.Perm.refl _
+    · exact (List.Perm.cons x ih).trans (List.Perm.swap e x r)
+
+theorem sortH_perm : ∀ l : List HEnt, (sortH l).Perm l := by
+  intro l; induction l with
+  | nil => exact List.Perm.refl _
+  | cons x r ih =>
+    simp only [sortH, List.foldr_cons] at ih ⊢
+    exact (insertH_perm x _).trans (List.Perm.cons x ih)
+
+/-- **extra_hosts**: every mapping of distinct well-formed hosts to non-empty lists of well-formed addresses reloads
+    to the same mapping (entries in the marshaller's order, each host's addresses in their own order) -/
+theorem roundtrip_HostsList (es : List HEnt) (hok : ∀ e ∈ es, entOK e) (hnd : (es.map Prod.fst).Nodup) :
+    (marshal_HostsList (.map (es.map entVal))).bind decode_HostsList = .ok (.map ((sortH es).map entVal)) := by
+  simp only [marshal_HostsList, Out.bind, sortEntries_map]
+  have hp := sortH_perm es
+  apply decode_hostLines
+  · intro e he; exact hok e (hp.mem_iff.mp he)
+  · exact (hp.map Prod.fst).nodup_iff.mpr hnd
+
 end CV.Marshal
